@@ -16,7 +16,7 @@
 (* With Record = TRUE behaviours are kept in hist and printed by Finish (simulation mode: vectors for step-by-step replay).   *)
 EXTENDS X06_Sem, Json, IOUtils
 
-CONSTANTS NProc, NGuards, NAsgs, NInvs, TwoArr, Record, MaxSteps, WpMulti, DoEmit, DoWp, DoRun
+CONSTANTS NProc, NGuards, NAsgs, NInvs, TwoArr, Record, MaxSteps, WpMulti, RunSet, DoEmit, DoWp, DoRun
 
 \* ---------------------------------------------------------------- constructors (the encoding of harness/codec.py)
 V(nm, T) == <<"var", nm, T>>
@@ -52,15 +52,15 @@ GuardSeq == IF TwoArr THEN
                Not(EqN(At(A, K), Y)) >>                                       \* ~(a k = y)
 AsgSeq == IF TwoArr THEN
           << << <<B, A>> >>,                                                  \* b := a          (whole array)
-             << <<At(B, K), At(A, K)>>, <<At(A, K), En("I")>> >>,             \* b k := a k, a k := I
+             << <<At(A, K), En("I")>>, <<At(B, K), At(A, K)>> >>,             \* a k := I, b k := a k   (simultaneous: b k gets the old a k)
              << <<At(A, K), En("C")>>, <<X, FalseC>> >>,                      \* a k := C, x := false
              << <<A, B>>, <<X, TrueC>> >> >>                                  \* a := b, x := true
           ELSE
           << << <<At(A, K), En("T")>> >>,                                     \* a k := T
              << <<At(A, K), En("C")>>, <<X, FalseC>> >>,                      \* a k := C, x := false
-             << <<At(A, K), En("I")>>, <<X, TrueC>> >>,                       \* a k := I, x := true
+             << <<Y, En("I")>>, <<At(A, K), Y>> >>,                           \* y := I, a k := y   (simultaneous: a k gets the old y)
              << <<Y, At(A, K)>> >>,                                           \* y := a k
-             << <<At(A, K), Y>>, <<Y, En("I")>> >>,                           \* a k := y, y := I   (simultaneous)
+             << <<At(A, K), En("I")>>, <<X, TrueC>> >>,                       \* a k := I, x := true
              << <<X, FalseC>>, <<Y, En("C")>> >> >>                           \* x := false, y := C
 InvSeq == IF TwoArr THEN
           << Inv(<<"i", "j">>, Not(And(EqN(At(B, PI), En("C")), EqN(At(A, PJ), En("T"))))),   \* ~(b i = C & a j = T)
@@ -101,7 +101,7 @@ Multi == { Sys("mutual_ex", MVars, MEnum, [i \in 1..Len(s) |-> MRules[s[i]]], MI
 FullMutex == Sys("mutual_ex", MVars, MEnum, MRules, MInvs)
 
 \* ---------------------------------------------------------------- scope, hints, tuples
-SigOf(sy) == [vars |-> sy.vars, enum |-> sy.enum, N |-> NProc, sup |-> { sy.vars[i][1] : i \in 1..Len(sy.vars) },
+SigOf(sy) == [vars |-> sy.vars, enum |-> sy.enum, eidx |-> EIdx(sy.enum), N |-> NProc, sup |-> { sy.vars[i][1] : i \in 1..Len(sy.vars) },
               vals |-> 0..(Len(sy.enum) - 1)]
 InjSeqs(S, n) == { s \in [1..n -> S] : \A i, j \in 1..n : i # j => s[i] # s[j] }
 Hint(k, inst) == [k |-> k, inst |-> inst]
@@ -129,7 +129,7 @@ WpExactFor(sy, t) ==
   \A s \in States(sig), v \in [P -> 1..NProc] :
       CaseOK(v, rl, iv, t.case) =>
         LET e == Env(sig, s, v) IN
-        EvalB(g, e) = (HypDoc(rl, iv, t.hint, hv, e) => EvalB(iv.prop, Env(sig, Exec(rl, e), v)))
+        EvalB(g, e) = (HypDoc(rl, iv, t.hint, hv, e, EvalB(rl.guard, e)) => EvalB(iv.prop, Env(sig, Exec(rl, e), v)))
 SysOK(sy) == LET sig == SigOf(sy) IN
              /\ VarTypesOK(sig)
              /\ \A i \in 1..Len(sy.rules) : SupRule(sy.rules[i], sig)
@@ -155,7 +155,7 @@ Init == \/ DoEmit /\ mode = "emit" /\ sys = NoSys /\ tup = NoTup /\ cert = FALSE
            /\ tup \in Tuples(sys)
            /\ st = << >>
         \/ /\ DoRun /\ mode = "run" /\ hist = << >> /\ tup = NoTup
-           /\ sys \in Multi
+           /\ sys \in (IF RunSet = 0 THEN Multi ELSE { m \in Multi : Len(m.rules) = 4 })
            /\ cert = Certified(sys)
            /\ st \in { s \in States(SigOf(sys)) : AllInvAt(sys.invs, SigOf(sys), s) }
 Fire == /\ mode = "run" /\ (Record => Len(hist) < MaxSteps)
